@@ -220,3 +220,9 @@ Proof. exact json_keysize_absent_fixed_size. Qed.
 (* non-vacuity: the hypotheses of the size theorems are met by concrete keys *)
 Theorem c11_rsa_reply_ok_example : rsa_reply_ok 65537 (2 ^ 2047 + 1) [] [].
 Proof. exact rsa_reply_ok_2048. Qed.
+
+(* the size adjustment of the model is the function the translator derives, statement by statement, from the current kexdh.py *)
+From VGen Require Import Tables.
+From VProofs Require Import TieProofs.
+Theorem c11_tie_adjust_key_size : forall size, adjust_key_size size = src_adjust_key_size size.
+Proof. exact tie_adjust_key_size. Qed.
